@@ -626,9 +626,6 @@ func c04TwoFlushers(c *rt.C, mem string, sameEpoch bool) {
 				time.Sleep(2 * time.Millisecond)
 			}
 		}
-		if atomic.LoadInt32(&flushes) == 0 {
-			close(f1Parked)
-		}
 		close(f1Go)
 		time.Sleep(20 * time.Millisecond)
 		if atomic.LoadInt32(&readerOnce) == 0 {
